@@ -281,15 +281,14 @@ impl ConsumerGroup {
         
         for id in ids {
             if let Some(entry) = pending.get_entry_mut(id) {
-                // Check idle time if not forcing
-                if !force {
-                    let idle_ms = now.duration_since(entry.last_delivery)
-                        .unwrap_or_default()
-                        .as_millis() as u64;
-                    
-                    if idle_ms < min_idle_ms {
-                        continue;
-                    }
+                // The idle threshold applies whether or not FORCE is given (FORCE is
+                // about IDs that are not pending at all)
+                let idle_ms = now.duration_since(entry.last_delivery)
+                    .unwrap_or_default()
+                    .as_millis() as u64;
+                
+                if idle_ms < min_idle_ms {
+                    continue;
                 }
                 
                 // Update consumer pending counts
